@@ -3,6 +3,7 @@ package main
 import (
 	"fmt"
 	"go/constant"
+	"go/token"
 	"go/types"
 	"strings"
 
@@ -308,6 +309,49 @@ func init() {
 			return []Term{r}, true
 		},
 	}
+	// go-jose: (obj JSONWebSignature) Verify(key) has a value receiver; the spec identifies the JWS by
+	// the pointer the receiver was loaded from (the parsed object), see specs/10_stdlib.spec.
+	extHandlers["github.com/go-jose/go-jose/v4.JSONWebSignature.Verify"] = func(fr *Frame, st *State, call ssa.CallInstruction, fn *ssa.Function, a []Term) ([]Term, bool) {
+		vc := fr.vc
+		sf := vc.C.Specs["joseVerified"]
+		if sf == nil {
+			return nil, false
+		}
+		vc.Assumed["assumed external spec (handler): go-jose JSONWebSignature.Verify returns the signed payload only when the signature verifies under the given key: err == nil ==> joseVerified(jws, key, payload); err != nil ==> payload == nil"] = true
+		args := call.Common().Args
+		var recv Term
+		if ld, ok := args[0].(*ssa.UnOp); ok && ld.Op == token.MUL {
+			recv = fr.val(ld.X)
+		} else {
+			recv = vc.sc.Fresh(fr.prefix+"jwsobj", "Ref")
+		}
+		payload := vc.sc.Fresh(fr.prefix+"verified", "Slice")
+		vc.wf(st, payload, fn.Signature.Results().At(0).Type())
+		errv := vc.sc.Fresh(fr.prefix+"verr", "Val")
+		vc.sc.Assume(st.reach, And(Or(Eq(errv, "nilval"), sx("vnn", errv)), vc.notModuleErr(errv)))
+		vc.sc.Assume(st.reach, Implies(Not(Eq(errv, "nilval")), Eq(vc.sptr(payload), "nilref")))
+		// the key: *jose.JSONWebKey boxed in any
+		var keyT types.Type
+		var keyPtr Term
+		if mi, ok := args[1].(*ssa.MakeInterface); ok {
+			keyPtr, keyT = fr.val(mi.X), mi.X.Type()
+		} else if bi, ok := vc.boxes[a[1]]; ok {
+			keyPtr, keyT = bi.inner, bi.t
+		}
+		if et, ok := typesPointerElem(keyT); ok && isNamed(et, "github.com/go-jose/go-jose/v4", "JSONWebKey") {
+			env := &Env{vc: vc, st: st, names: map[string]cval{}, where: "go-jose Verify"}
+			env.names["jws"] = cval{recv, CT{Sort: "Ref", T: types.NewPointer(args[0].Type())}}
+			env.names["key"] = cval{vc.loadT(st, keyPtr, et), vc.ctOf(et)}
+			env.names["payload"] = cval{sx("bstr", payload), CT{Sort: "String", T: types.Typ[types.String]}}
+			ex, _ := parseExpr("joseVerified(jws, key, payload)")
+			vc.sc.Assume(st.reach, Implies(Eq(errv, "nilval"), env.boolTerm(ex)))
+			vc.reportEnvErrors(env)
+		} else {
+			vc.Abstracted["go-jose Verify with a key of statically unknown type"] = true
+		}
+		vc.recordCallSyms("github.com/go-jose/go-jose/v4.JSONWebSignature.Verify", fn.Signature, []Term{payload, errv})
+		return []Term{payload, errv}, true
+	}
 	ifaceHandlers = map[string]ifaceHandler{}
 }
 
@@ -351,9 +395,12 @@ func (fr *Frame) decodeInto(st *State, call ssa.CallInstruction, argIdx int, a [
 	clk := vc.bumpClock(st)
 	argv := call.Common().Args[argIdx]
 	done := false
+	before := st.clone()
+	linked := func(p Term, pt types.Type) { vc.assumeLinkedFresh(st, before, p, pt, clk) }
 	if mi, ok := argv.(*ssa.MakeInterface); ok {
 		if pt, ok := typesPointerElem(mi.X.Type()); ok {
 			vc.havocPointee(st, fr.val(mi.X), pt, true, clk)
+			linked(fr.val(mi.X), pt)
 			done = true
 		}
 	}
@@ -361,6 +408,7 @@ func (fr *Frame) decodeInto(st *State, call ssa.CallInstruction, argIdx int, a [
 		if bi, ok := vc.boxes[a[argIdx]]; ok {
 			if pt, ok := typesPointerElem(bi.t); ok {
 				vc.havocPointee(st, bi.inner, pt, true, clk)
+				linked(bi.inner, pt)
 				done = true
 			}
 		}
@@ -368,6 +416,7 @@ func (fr *Frame) decodeInto(st *State, call ssa.CallInstruction, argIdx int, a [
 	if !done {
 		if pt, ok := typesPointerElem(argv.Type()); ok {
 			vc.havocPointee(st, a[argIdx], pt, true, clk)
+			linked(a[argIdx], pt)
 			done = true
 		}
 	}
@@ -507,5 +556,29 @@ func (vc *VC) finalizeErrors() {
 				vc.sc.Axiom(Not(sx("isErr", s, tgt)))
 			}
 		}
+	}
+}
+
+// assumeLinkedFresh: what a decoder links into its target (pointers, slices at depth 1 of the
+// target object) is what was there before, nil, or freshly allocated.
+func (vc *VC) assumeLinkedFresh(st, before *State, p Term, pt types.Type, clk Term) {
+	var leaves []leafLoc
+	vc.leafLocs(pt, func(e Term) Term { return e }, &leaves)
+	if len(leaves) > 64 {
+		return
+	}
+	vc.Assumed["decoders link only fresh allocations (or what was already there) into their target"] = true
+	for _, lf := range leaves {
+		if lf.sort != "Slice" && lf.sort != "Ref" {
+			continue
+		}
+		ad := lf.addr(p)
+		ov := sx("select", vc.getMem(before, lf.key, "(Array Ref "+lf.sort+")"), ad)
+		nv := sx("select", vc.getMem(st, lf.key, "(Array Ref "+lf.sort+")"), ad)
+		vc.noteAddr(lf.key, ad)
+		if lf.sort == "Slice" {
+			ov, nv = sx("s-ptr", ov), sx("s-ptr", nv)
+		}
+		vc.sc.Assume(st.reach, Or(Eq(nv, ov), Eq(nv, "nilref"), sx(">=", sx("birth", sx("root", nv)), clk)))
 	}
 }
